@@ -110,7 +110,12 @@ class Run(object):
                 os.close(fd)
                 self.tmp = path
             self.under = None
-            self.ar = ArFile(filename=path)
+            try:
+                self.ar = ArFile(filename=path)
+            except Exception:
+                if self.tmp:
+                    os.unlink(self.tmp)
+                raise
         self.ms = self.ar.getmembers()
         self.refs = [io.BytesIO(m[1]) for m in members]
 
@@ -351,7 +356,13 @@ def run_unit(u, tier, seed):
         os.close(fd)
     base = {"members": members, "style": style, "mode": mode}
     try:
-        r = Run(members, style, mode, path)
+        try:
+            r = Run(members, style, mode, path)
+        except Exception as e:       # a well-formed archive must be indexed
+            part.violation("ar/open-raises/" + type(e).__name__, dict(base, start=None, history=[]),
+                           "archive is indexed", "%s: %s" % (type(e).__name__, e))
+            part.evaluations += 1
+            return part
         for sig, exp, obs in r.meta():
             part.violation(sig, dict(base, start=None, history=[]), exp, obs)
         r.close()
@@ -433,7 +444,10 @@ def replay(case):
     if case.get("big"):
         bad, _ = run_big_history([(mi, tuple(op)) for mi, op in case["history"]])
         return [bad] if bad else []
-    r = Run([tuple(m) for m in case["members"]], case["style"], case["mode"])
+    try:
+        r = Run([tuple(m) for m in case["members"]], case["style"], case["mode"])
+    except Exception as e:
+        return [("ar/open-raises/" + type(e).__name__, "archive is indexed", "%s: %s" % (type(e).__name__, e))]
     try:
         bad = r.meta()
         if bad:
